@@ -545,7 +545,7 @@ def c19_run(case):
             after = (len(client.responses), len(client.requests), client.waited, sum(len(s.sent) for _, s in world.socks),
                      sum(len(s.inbox) + len(s.timeline) for _, s in world.socks))
             idle = idle + 1 if before == after else 0
-            if idle >= 6:
+            if idle >= 12:
                 break
     finally:
         tcp.Client, tcp.ClientTls = RealClient, RealClientTls
